@@ -495,3 +495,22 @@ PROPS['C06']['obligations'].append(
       'RuntimeError at the client) in-process, over gRPC and through a separate Pythia server, and the next request '
       'terminates', 'real gRPC deployments; 4 fault kinds x count 1..2 x 3 pre-states', no_validate=True))
 PROPS['C06']['encoded'] += ['PythiaServicer.Suggest over real gRPC (DistributedPythiaVizierServer)', 'vizier_client.get_suggestions']
+
+
+PROPS['C12']['encoded'] += ['VizierServicer.SuggestTrials/CompleteTrial/DeleteTrial/CreateTrial', 'PythiaServicer.Suggest',
+                            'ServicePolicySupporter.GetTrials', 'TrialFilter']
+PROPS['C12']['obligations'] += [
+    O('C12.history_q%d' % k, 'harness.c12_service', 'history_quick', 200, None,
+      'real service, policy rebuilt per request: every completed trial instance is delivered exactly once, each update '
+      'carries exactly the ACTIVE trials of that moment', '3 suggests, 4 environment actions from two 5-action menus; slice '
+      '%d/5' % k, env={'VERIF_SLICE': str(k)}, no_validate=True)
+    for k in range(5)
+] + [
+    O('C12.history_s%d' % k, 'harness.c12_service', 'history', None, 1500,
+      'real service, policy rebuilt per request: over the whole history every completed trial instance is delivered exactly '
+      'once, each update carries exactly the ACTIVE trials of that moment',
+      '3 suggests with up to 4 environment actions (10 kinds incl. deletes, externally added completed trials, second worker); '
+      'first action = #%d' % k, env={'VERIF_SLICE': str(k)}, no_validate=True)
+    for k in range(10)
+]
+PROPS['C12']['outside'] = 'more than 4 trial ids in the one-step obligations; histories longer than 3 suggests / 4 actions'
